@@ -189,6 +189,31 @@ def grid_items(rng, npool, nbin, rot, tier="quick", classes=True):
         mod = {"types": types, "funcs": funcs, "exports": exports}
         for j in range(0, len(calls), 500):
             items.append({"id": "g%s_%d" % (t, j // 500), "module": mod, "script": [INST] + calls[j:j + 500]})
+    # every pair of adjacent unary float instructions / conversions whose types fit (peephole shapes); bits observed through
+    # reinterpret so that sign and payload of NaN-preserving pairs count
+    UN = [("%s.%s" % (t_, o_), t_, t_) for t_ in ("f32", "f64") for o_ in FUN] + \
+         [("f64.promote_f32", "f32", "f64"), ("f32.demote_f64", "f64", "f32"), ("i32.reinterpret_f32", "f32", "i32"), ("i64.reinterpret_f64", "f64", "i64"),
+          ("f32.reinterpret_i32", "i32", "f32"), ("f64.reinterpret_i64", "i64", "f64"), ("i32.trunc_sat_f32_s", "f32", "i32"), ("i64.trunc_sat_f64_u", "f64", "i64"),
+          ("f32.convert_i32_s", "i32", "f32"), ("f64.convert_i64_u", "i64", "f64"), ("f64.convert_i32_s", "i32", "f64"), ("f32.convert_i64_u", "i64", "f32")]
+    exact_ops = ("abs", "neg", "reinterpret")
+    types2, funcs2, exports2, calls2 = [], [], [], []
+    for o1, a1, r1 in UN:
+        for o2, a2, r2 in UN:
+            if r1 != a2 or (a1 in ("i32", "i64") and r2 in ("i32", "i64")):
+                continue
+            exact = all(any(x in o for x in exact_ops) for o in (o1, o2)) and r2 in ("f32", "f64")
+            rt = {"f32": "i32", "f64": "i64"}[r2] if exact else r2
+            ty = {"p": [a1], "r": [rt]}
+            if ty not in types2:
+                types2.append(ty)
+            nm_ = "%s__%s" % (o1.replace(".", "_"), o2.replace(".", "_"))
+            funcs2.append({"type": types2.index(ty), "locals": [], "body": [["local.get", 0], [o1], [o2]] + ([["%s.reinterpret_%s" % (rt, r2)]] if exact else []) + [["end"]]})
+            exports2.append({"name": nm_, "kind": "func", "idx": len(funcs2) - 1})
+            src = class_pool(a1)[::3] if a1 in ("f32", "f64") else P[a1][:8]
+            calls2 += [{"op": "call", "inst": 1, "export": nm_, "args": [val(a1, x)]} for x in src]
+    mod2 = {"types": types2, "funcs": funcs2, "exports": exports2}
+    for j in range(0, len(calls2), 500):
+        items.append({"id": "gfpair_%d" % (j // 500), "module": mod2, "script": [INST] + calls2[j:j + 500]})
     # conversions
     types, funcs, exports, calls = [], [], [], []
     for op in sorted(OPS):
